@@ -73,6 +73,18 @@ def check_pair(acc, pendulum, za, ia, zb, ib, clone_b=False, native=True):
              ("abs", lambda: abs(b - a), abs(diff)),
              ("absolute=True", lambda: pendulum.interval(a, b, absolute=True), abs(diff)),
              ("diff-default", lambda: a.diff(b), abs(diff))]
+    if native and za is not None:
+        # endpoints that carry a stdlib tzinfo (results of astimezone(<stdlib tz>)): same instants, same length
+        try:
+            fa_ = a.astimezone(dt_.timezone.utc)
+            fb_ = b.astimezone(dt_.timezone(b.utcoffset()))
+            fz_ = b.astimezone(_native(zb, ib).tzinfo)
+            forms.append(("sub-foreign-endpoints", lambda: fb_ - fa_, diff))
+            forms.append(("sub-foreign-zoneinfo", lambda: fz_ - fa_, diff))
+            forms.append(("sub-foreign-minus-pendulum", lambda: fb_ - a, diff))
+            forms.append(("diff-foreign", lambda: fa_.diff(fz_, False), diff))
+        except (OverflowError, ValueError):
+            pass
     if native and za is not None and (ia + ib) % 3 == 0:
         # an Interval built directly from native endpoints (Interval.__init__ wraps them with instance())
         na_, nb_ = _native(za, ia), _native(zb, ib)
@@ -80,7 +92,11 @@ def check_pair(acc, pendulum, za, ia, zb, ib, clone_b=False, native=True):
             forms.append(("interval-of-natives", lambda: pendulum.Interval(na_, nb_), diff))
     first = None
     for name, fn, want in forms:
-        r = fn()
+        try:
+            r = fn()
+        except Exception as e:  # noqa: BLE001
+            acc.mismatch(name, f"{cls}/raises-{type(e).__name__}", case, f"{type(e).__name__}: {str(e)[:60]}", want)
+            continue
         acc.c["evaluations"] += 1
         acc.c["transitions"] += 1
         got = obs.td_us(r)
